@@ -161,7 +161,7 @@ def codegen(hs, ovdir, rundir):
             g, unwind, mangled = out[h["name"]]
             dst = os.path.join(gd, h["short"] + ".symtab.out")
             shutil.copy(g, dst)
-            res[h["name"]] = (dst, (unwind, mangled))
+            res[(h["name"], h.get("features", ""))] = (dst, (unwind, mangled))
         return res
 
 
@@ -261,7 +261,8 @@ def solve(h, symtab, unwind_mangled, rundir):
     return st, parsed, logp, wall
 
 
-WIT_RE = re.compile(r"4vwit1W\[(\d+)l?\]\s*=\s*(\d+)")
+# the value is taken from the binary rendering at the end of the line (CBMC prints some small constants as `sizeof(..) /*1ul*/`)
+WIT_RE = re.compile(r"return_value\$\$_R\w*4vwit4draw=.*\(([01 ]+)\)\s*$")
 
 
 def extract_witness(h, parsed, failed, rundir):
@@ -278,16 +279,17 @@ def extract_witness(h, parsed, failed, rundir):
     with open(tp, "w") as tf:
         subprocess.run(["bash", "-c", "ulimit -v %d; exec timeout -k 10 %d %s" % (
             int(max(h.get("mem_gb", 12), 24) * 1048576), timeout, " ".join("'%s'" % c for c in cmd))], stdout=tf, stderr=subprocess.STDOUT)
-    wit = {}
+    # every symbolic draw is one call of vwit::draw; the trace lists its return values in program order
+    vals = []
     n_lines = 0
     with open(tp, errors="replace") as tf:
         for line in tf:
             n_lines += 1
-            for m in WIT_RE.finditer(line):
-                wit[int(m.group(1))] = int(m.group(2))
-    if not wit and n_lines < 5:
+            m = WIT_RE.search(line)
+            if m:
+                vals.append(int(m.group(1).replace(" ", ""), 2))
+    if not vals and n_lines < 5:
         return None, "no trace produced"
-    vals = [wit.get(i, 0) for i in range((max(wit) + 1) if wit else 0)]
     return vals, tp
 
 
@@ -403,9 +405,10 @@ def run_property(pid, spec, tier, seed, only=None, jobs=0):
             log("  [%s] codegen of %d harness(es) in %d group(s): %.0fs" % (pid, len(hs), len(groups), time.time() - tb))
 
         def work(h):
-            if h["name"] not in compiled:
+            ck = (h["name"], h.get("features", ""))
+            if ck not in compiled:
                 return h, "BUILD", {"failed": [], "covers": [], "checks": 0, "functions": []}, "", 0.0
-            symtab, unwind = compiled[h["name"]]
+            symtab, unwind = compiled[ck]
             st, parsed, logp, wall = solve(h, symtab, unwind, rundir)
             with lock:
                 log("  [%s] %-34s %-8s %6.1fs  checks=%d failed=%d covers=%s vars=%s" % (
@@ -442,7 +445,7 @@ def run_property(pid, spec, tier, seed, only=None, jobs=0):
         nontrivial = 0
         parsed_of = {}
         for h, st, parsed, logp, wall in results:
-            parsed_of[h["name"]] = parsed
+            parsed_of[h["short"]] = parsed
             queries += 1
             obligations += parsed["checks"] + len(parsed["covers"])
             solver_s += parsed.get("solver_s") or 0.0
@@ -502,7 +505,7 @@ def run_property(pid, spec, tier, seed, only=None, jobs=0):
                 if reproduced:
                     violations[-1].setdefault("also_failing", []).append(h.get("short", h["name"]))
                 continue
-            pb = playback(h, overlays[h["profile"]], rundir, parsed=parsed_of[h["name"]], failed=failed)
+            pb = playback(h, overlays[h["profile"]], rundir, parsed=parsed_of[h["short"]], failed=failed)
             rp = save_replay(pid, h, failed, pb, logp)
             sample["replay"] = rp
             if pb["reproduced"]:
